@@ -14,10 +14,14 @@ package main
 
 import (
 	"bytes"
+	"crypto/ecdsa"
 	"crypto/ed25519"
+	"crypto/elliptic"
+	"crypto/rand"
 	"encoding/pem"
 	"errors"
 	"fmt"
+	"net"
 	"os"
 	"os/exec"
 	"os/user"
@@ -65,6 +69,12 @@ type c14env struct {
 	noKey    string // path that does not exist
 	keyPub   ssh.PublicKey
 	otherPub ssh.PublicKey // a key the client does not have
+	ecdsaPub ssh.PublicKey // a key of another type than the servers' (ecdsa-sha2-nistp256)
+	encKey   string        // the client key again, passphrase protected ("phrase")
+	home     string        // $HOME of the harness process for this run: ~/.ssh/known_hosts and ~/.ssh/config live here
+	etcKH    bool          // /etc/ssh/ssh_known_hosts exists
+	etcCfg   bool          // /etc/ssh/ssh_config exists
+	noBin    string        // a path where no binary is
 	cfgs     []string      // existing ssh config files (empty content)
 	khs      []string      // existing known-hosts files for the argv part (content irrelevant)
 	me       string        // local user name
@@ -172,6 +182,21 @@ func newC14Env(c *ctx) *c14env {
 	if u, err := user.Current(); err == nil {
 		e.me = u.Username
 	}
+	if ek, err := ecdsa.GenerateKey(elliptic.P256(), rand.Reader); err == nil { // key material only; no case depends on its bytes
+		e.ecdsaPub, _ = ssh.NewPublicKey(&ek.PublicKey)
+	}
+	e.encKey = filepath.Join(dir, "id_ed25519_enc")
+	if blk, err := ssh.MarshalPrivateKeyWithPassphrase(priv, "", []byte("phrase")); err == nil {
+		os.WriteFile(e.encKey, pem.EncodeToMemory(blk), 0o600)
+	}
+	e.home = filepath.Join(dir, "home")
+	os.MkdirAll(filepath.Join(e.home, ".ssh"), 0o700)
+	os.Setenv("HOME", e.home) // util.ResolveFilePath / the …FileSystem options look under os.UserHomeDir()
+	_, err1 := os.Stat("/etc/ssh/ssh_known_hosts")
+	e.etcKH = err1 == nil
+	_, err2 := os.Stat("/etc/ssh/ssh_config")
+	e.etcCfg = err2 == nil
+	e.noBin = filepath.Join(dir, "no-such-ssh")
 	if p, err := exec.LookPath("ssh"); err == nil {
 		e.haveSSH = p
 	}
@@ -221,6 +246,13 @@ type sysCase struct {
 	explicit bool // WithTransportType("system") given (else the default transport)
 	keyLoads bool
 	shuffle  uint64
+	// how the known-hosts / config files are named: 0 none, 1 existing path, 2 path that does not exist,
+	// 3 …FileSystem() with the user's file present, 4 …FileSystem() without it (falls back to /etc/ssh/…)
+	khOpt, cfgOpt int
+	khNamed       string // the path handed to WithSSHKnownHostsFile (modes 1, 2)
+	cfgNamed      string
+	noBin         bool   // OpenBin names a binary that does not exist
+	newErrWant    string // model: NewDriver fails with this class ("" = succeeds)
 }
 
 func (k *sysCase) flatExtra() []string {
@@ -232,7 +264,7 @@ func (k *sysCase) flatExtra() []string {
 }
 
 func (k *sysCase) leanLine() string {
-	return fmt.Sprintf("c14 sys %s %d %s %s %d %s %s %s %s %s %s %s %s %s",
+	return fmt.Sprintf("c14 sysbin %s %s %d %s %s %d %s %s %s %s %s %s %s %s %s", b01(!k.noBin),
 		hexs(k.host), k.port, hexs(k.user), hexs(k.pw), int64(k.tmo), b01(k.strict), hexs(k.key), hexs(k.pass),
 		hexs(k.cfg), hexs(k.kh), b01(k.netconf), hexl(k.flatExtra()), hexl(k.override), b01(k.keyLoads))
 }
@@ -334,7 +366,27 @@ func genSys(e *c14env, seed uint64, internal bool) *sysCase {
 	k.netconf = r.Chance(1, 5)
 	k.explicit = r.Bool()
 	k.shuffle = r.U64()
+	r2 := vlib.NewRng(seed ^ 0xd1f)
+	k.khOpt, k.cfgOpt = 0, 0
+	if k.kh != "" {
+		k.khOpt, k.khNamed = 1, k.kh
+		if r2.Chance(1, 8) {
+			k.khOpt, k.khNamed = 2, filepath.Join(e.dir, "no-such-known-hosts")
+		}
+	} else if r2.Chance(1, 3) {
+		k.khOpt = pickInt(r2, 3, 3, 4)
+	}
+	if k.cfg != "" {
+		k.cfgOpt, k.cfgNamed = 1, k.cfg
+		if r2.Chance(1, 8) {
+			k.cfgOpt, k.cfgNamed = 2, filepath.Join(e.dir, "no-such-config")
+		}
+	} else if r2.Chance(1, 3) {
+		k.cfgOpt = pickInt(r2, 3, 4)
+	}
+	k.noBin = r2.Chance(1, 14)
 	if internal {
+		k.khOpt, k.cfgOpt, k.noBin = 0, 0, false
 		// the internal tie is free to use strings no option would produce: missing files, NUL bytes
 		if r.Chance(1, 3) {
 			k.kh = r.Pick([]string{"/nonexistent/kh", "kh\x00nul", "~/.ssh/known_hosts", "a b", "=", "-"})
@@ -354,7 +406,11 @@ func genSys(e *c14env, seed uint64, internal bool) *sysCase {
 }
 
 func (k *sysCase) options(e *c14env) []util.Option {
-	opts := []util.Option{options.WithSystemTransportOpenBin(e.standin), options.WithPort(k.port),
+	bin := e.standin
+	if k.noBin {
+		bin = e.noBin
+	}
+	opts := []util.Option{options.WithSystemTransportOpenBin(bin), options.WithPort(k.port),
 		options.WithTimeoutSocket(k.tmo)}
 	if k.explicit {
 		opts = append(opts, options.WithTransportType(transport.SystemTransport))
@@ -368,11 +424,17 @@ func (k *sysCase) options(e *c14env) []util.Option {
 	if !k.strict {
 		opts = append(opts, options.WithAuthNoStrictKey())
 	}
-	if k.kh != "" {
-		opts = append(opts, options.WithSSHKnownHostsFile(k.kh))
+	switch k.khOpt {
+	case 1, 2:
+		opts = append(opts, options.WithSSHKnownHostsFile(k.khNamed))
+	case 3, 4:
+		opts = append(opts, options.WithSSHKnownHostsFileSystem())
 	}
-	if k.cfg != "" {
-		opts = append(opts, options.WithSSHConfigFile(k.cfg))
+	switch k.cfgOpt {
+	case 1, 2:
+		opts = append(opts, options.WithSSHConfigFile(k.cfgNamed))
+	case 3, 4:
+		opts = append(opts, options.WithSSHConfigFileSystem())
 	}
 	if k.key != "" {
 		opts = append(opts, options.WithAuthPrivateKey(k.key, k.pass))
@@ -396,7 +458,23 @@ func (k *sysCase) options(e *c14env) []util.Option {
 	return opts
 }
 
+func resolveRq(opt int, named, home, etc string, etcHas bool) string {
+	switch opt {
+	case 1:
+		return fmt.Sprintf("c14 resolve path %s 1 0 0 - -", hexs(named))
+	case 2:
+		return fmt.Sprintf("c14 resolve path %s 0 0 0 - -", hexs(named))
+	case 3, 4:
+		return fmt.Sprintf("c14 resolve system - 0 %s %s %s %s", b01(opt == 3), b01(etcHas), hexs(home), hexs(etc))
+	}
+	return "c14 resolve none - 0 0 0 - -"
+}
+
 type sysObs struct {
+	gotHost string
+	gotPort int
+	inChan  string
+	alive   bool
 	newErr  error
 	openErr error
 	argv    []string
@@ -404,6 +482,17 @@ type sysObs struct {
 }
 
 func (k *sysCase) run(e *c14env) (o sysObs) {
+	// the user's default files, as this case wants them
+	for _, f := range []struct {
+		opt  int
+		name string
+	}{{k.khOpt, "known_hosts"}, {k.cfgOpt, "config"}} {
+		p := filepath.Join(e.home, ".ssh", f.name)
+		os.Remove(p)
+		if f.opt == 3 {
+			os.WriteFile(p, nil, 0o600)
+		}
+	}
 	var tr *transport.Transport
 	if k.netconf {
 		d, err := netconf.NewDriver(k.host, k.options(e)...)
@@ -420,10 +509,13 @@ func (k *sysCase) run(e *c14env) (o sysObs) {
 		}
 		tr = d.Transport
 	}
+	o.gotHost, o.gotPort = tr.GetHost(), tr.GetPort()
+	o.inChan = showInChan(tr.InChannelAuthData())
 	rec := e.tmp("argv")
 	os.Setenv("VERIF_C14_ARGV", rec)
 	defer os.Unsetenv("VERIF_C14_ARGV")
 	o.openErr = tr.Open()
+	o.alive = tr.IsAlive()
 	if o.openErr == nil {
 		deadline := time.Now().Add(15 * time.Second)
 		for time.Now().Before(deadline) {
@@ -595,11 +687,38 @@ func c14Sys(c *ctx, e *c14env, seeds []uint64) {
 	res := c.res
 	cases := make([]*sysCase, len(seeds))
 	lines := make([]string, len(seeds))
+	homeKH, homeCfg := filepath.Join(e.home, ".ssh", "known_hosts"), filepath.Join(e.home, ".ssh", "config")
+	var rq []string
 	for i, s := range seeds {
 		cases[i] = genSys(e, s, false)
-		lines[i] = cases[i].leanLine()
+		k := cases[i]
+		rq = append(rq, resolveRq(k.khOpt, k.khNamed, homeKH, "/etc/ssh/ssh_known_hosts", e.etcKH),
+			resolveRq(k.cfgOpt, k.cfgNamed, homeCfg, "/etc/ssh/ssh_config", e.etcCfg))
+	}
+	rs := c.ask(rq)
+	inchanRq := make([]string, len(seeds))
+	for i, k := range cases {
+		// the SSHArgs fields the options leave behind, according to the model (resolveFileOpt)
+		for j, dst := range []*string{&k.kh, &k.cfg} {
+			f := strings.Fields(rs[2*i+j])
+			switch {
+			case len(f) == 2 && f[0] == "ok":
+				b, _ := vlib.UnHex(f[1])
+				*dst = string(b)
+			case len(f) == 2 && f[0] == "err":
+				*dst = ""
+				if k.newErrWant == "" || f[1] == "filenotfound" {
+					k.newErrWant = f[1]
+				}
+			default:
+				res.Fail("machinery", fmt.Sprintf("sys %d", k.seed), "driver rejected: "+rq[2*i+j], "c14-bad-op")
+			}
+		}
+		lines[i] = k.leanLine()
+		inchanRq[i] = fmt.Sprintf("c14 inchan sys %s %s %s", hexs(k.user), hexs(k.pw), hexs(k.pass))
 	}
 	model := c.ask(lines)
+	inchan := c.ask(inchanRq)
 	obs := make([]sysObs, len(cases))
 	parse := make([]string, len(cases))
 	for i, k := range cases {
@@ -616,8 +735,32 @@ func c14Sys(c *ctx, e *c14env, seeds []uint64) {
 			res.Fail("machinery", line, "driver rejected: "+lines[i], "c14-bad-op")
 			continue
 		}
+		res.Count(fmt.Sprintf("sys known-hosts-option=%d config-option=%d", k.khOpt, k.cfgOpt))
+		if k.newErrWant != "" {
+			// a file option that cannot be satisfied: no driver, nothing spawned
+			res.Count("sys-file-option-unresolvable")
+			res.Case(line, true)
+			res.InDomain++
+			got := "nil"
+			switch {
+			case errors.Is(o.newErr, util.ErrFileNotFoundError):
+				got = "filenotfound"
+			case errors.Is(o.newErr, util.ErrBadOption):
+				got = "badoption"
+			case o.newErr != nil:
+				got = "other"
+			}
+			// with two failing options the first one applied decides the class; either is an error
+			if o.newErr == nil || (got != k.newErrWant && !(k.khOpt >= 2 && k.cfgOpt >= 2)) {
+				res.Fail("correspondence", line, fmt.Sprintf("model: NewDriver fails with %s; impl: %v (%s | %s)", k.newErrWant, o.newErr, rq[2*i], rq[2*i+1]), "c14-sys-newdriver-differs")
+			}
+			if o.ran {
+				res.Fail("oracle", line, "a configured known-hosts/config file could not be resolved, yet ssh was spawned", "c14-sys-spawned-without-configured-file")
+			}
+			continue
+		}
 		if o.newErr != nil {
-			// every generated option refers to existing files; NewDriver must not fail
+			// every other generated option refers to existing files; NewDriver must not fail
 			res.Case(line, false)
 			res.Fail("correspondence", line, fmt.Sprintf("NewDriver failed: %v for %s", o.newErr, lines[i]), "c14-sys-newdriver-error")
 			continue
@@ -640,11 +783,25 @@ func c14Sys(c *ctx, e *c14env, seeds []uint64) {
 		}
 		res.Case(line, len(k.extra) > 0 || k.user != "" || k.kh != "" || k.key != "")
 		res.Sample(map[string]any{"case": line, "argv": o.argv, "open_err": fmt.Sprint(o.openErr)})
+		// the accessors name the configured target; the channel gets the configured credentials and only those
+		if o.gotHost != k.host || o.gotPort != k.port {
+			res.Fail("oracle", line, fmt.Sprintf("transport targets %q port %d, configured %q port %d", o.gotHost, o.gotPort, k.host, k.port), "c14-sys-wrong-target")
+		}
+		if o.inChan != inchan[i] {
+			res.Fail("correspondence", line, fmt.Sprintf("InChannelAuthData = %s, model %s", o.inChan, inchan[i]), "c14-sys-in-channel-data")
+		}
+		if k.noBin {
+			res.Count("sys-no-such-binary")
+		}
+		// the system transport is "alive" as soon as, and only if, the ssh process was spawned
+		if o.alive != (o.openErr == nil) {
+			res.Fail("correspondence", line, fmt.Sprintf("IsAlive() = %v after Open returned %v", o.alive, o.openErr), "c14-sys-alive-differs")
+		}
 		// --- correspondence: model vs implementation
 		if fields[1] == "err" {
 			want := fields[2]
 			got := errClass(o.openErr)
-			ok := (want == "badoption" && got == "badoption") || (want == "keyfile" && o.openErr != nil && got != "badoption")
+			ok := (want == "badoption" && got == "badoption") || ((want == "keyfile" || want == "spawn") && o.openErr != nil && got != "badoption")
 			if !ok || o.ran {
 				res.Fail("correspondence", line, fmt.Sprintf("model: Open fails with %s before spawning; impl: err=%v spawned=%v (%s)", want, o.openErr, o.ran, lines[i]), "c14-sys-open-error-differs")
 			}
@@ -733,19 +890,22 @@ const (
 	khRevoked
 	khMalformed
 	khAbsent
+	khWildcard      // `[*]:port` pattern with the server's key
+	khMultiType     // the host has a key of another type (ecdsa) AND the server's ed25519 key
+	khOtherTypeOnly // the host is known, but only with a key of another type
 	khKinds
 	// khMissing: a path is configured but no file is there when the connection is opened (histories only)
 	khMissing khKind = khKinds
 )
 
-var khNames = []string{"match", "match-hashed", "match-among-others", "mismatch", "empty", "other-port", "revoked", "malformed", "absent", "missing"}
+var khNames = []string{"match", "match-hashed", "match-among-others", "mismatch", "empty", "other-port", "revoked", "malformed", "absent", "wildcard", "multi-type", "other-type-only", "missing"}
 
 // verdict by construction of the file
 func (k khKind) verdict() string {
 	switch k {
-	case khMatch, khMatchHashed, khMatchAmongOthers:
+	case khMatch, khMatchHashed, khMatchAmongOthers, khWildcard, khMultiType:
 		return "match"
-	case khMismatch:
+	case khMismatch, khOtherTypeOnly:
 		return "mismatch"
 	case khRevoked:
 		return "revoked"
@@ -758,18 +918,19 @@ func khLine(hostport string, key ssh.PublicKey) string {
 }
 
 // writeKH creates a known-hosts file of the given kind under a fresh name; "" for khAbsent.
-func (e *c14env) writeKH(kind khKind, port int, hostKey ssh.PublicKey) string {
+func (e *c14env) writeKH(kind khKind, host string, port int, hostKey ssh.PublicKey) string {
 	if kind == khAbsent {
 		return ""
 	}
 	p := e.tmp("kh")
-	os.WriteFile(p, e.khBytes(kind, port, hostKey), 0o600)
+	os.WriteFile(p, e.khBytes(kind, host, port, hostKey), 0o600)
 	return p
 }
 
 // khBytes is the content of a known-hosts file of the given kind for 127.0.0.1:port.
-func (e *c14env) khBytes(kind khKind, port int, hostKey ssh.PublicKey) []byte {
-	addr := fmt.Sprintf("127.0.0.1:%d", port)
+func (e *c14env) khBytes(kind khKind, host string, port int, hostKey ssh.PublicKey) []byte {
+	addr := net.JoinHostPort(host, strconv.Itoa(port))
+	keyText := func(k ssh.PublicKey) string { return strings.Join(strings.Fields(khLine(addr, k))[1:], " ") }
 	var b bytes.Buffer
 	switch kind {
 	case khMatch:
@@ -777,17 +938,23 @@ func (e *c14env) khBytes(kind khKind, port int, hostKey ssh.PublicKey) []byte {
 	case khMatchHashed:
 		b.WriteString(knownhosts.HashHostname(knownhosts.Normalize(addr)) + " " + hostKey.Type() + " " + strings.Fields(khLine(addr, hostKey))[2] + "\n")
 	case khMatchAmongOthers:
-		b.WriteString("# comment\n\n" + khLine("example.com:22", e.otherPub) + "\n" + khLine(fmt.Sprintf("127.0.0.1:%d", port+1), e.otherPub) + "\n" +
+		b.WriteString("# comment\n\n" + khLine("example.com:22", e.otherPub) + "\n" + khLine(net.JoinHostPort(host, strconv.Itoa(port+1)), e.otherPub) + "\n" +
 			khLine(addr, hostKey) + "\n" + khLine("10.9.8.7:22", e.keyPub) + "\n")
 	case khMismatch:
 		b.WriteString(khLine(addr, e.otherPub) + "\n")
 	case khEmpty:
 	case khOtherPort:
-		b.WriteString(khLine(fmt.Sprintf("127.0.0.1:%d", port+1), hostKey) + "\n" + khLine("127.0.0.2:"+strconv.Itoa(port), hostKey) + "\n")
+		b.WriteString(khLine(net.JoinHostPort(host, strconv.Itoa(port+1)), hostKey) + "\n" + khLine("127.0.0.2:"+strconv.Itoa(port), hostKey) + "\n")
 	case khRevoked:
 		b.WriteString(khLine(addr, hostKey) + "\n@revoked * " + strings.Join(strings.Fields(khLine(addr, hostKey))[1:], " ") + "\n")
 	case khMalformed:
 		b.WriteString("this-line has-no valid-key\n")
+	case khWildcard:
+		b.WriteString(fmt.Sprintf("[*]:%d %s\n", port, keyText(hostKey)))
+	case khMultiType:
+		b.WriteString(khLine(addr, e.ecdsaPub) + "\n" + khLine(addr, hostKey) + "\n")
+	case khOtherTypeOnly:
+		b.WriteString(khLine(addr, e.ecdsaPub) + "\n")
 	}
 	return b.Bytes()
 }
@@ -797,7 +964,14 @@ type stdCase struct {
 	strict  bool
 	kh      khKind
 	usePw   bool
-	keyKind int // 0 none, 1 good, 2 good (odd path), 3 bad file, 4 missing
+	keyKind int // 0 none, 1 good, 2 good (odd path), 3 bad file, 4 missing, 5 passphrase-protected (+ passphrase configured)
+	host    string   // "127.0.0.1" | "localhost" | "::1"
+	khMode  int      // how the known-hosts file is named: 0 WithSSHKnownHostsFile(existing path), 1 …(path that does not exist), 2 WithSSHKnownHostsFileSystem() with the content in ~/.ssh/known_hosts
+	ciphers []string // WithStandardTransportExtraCiphers
+	kexs    []string // WithStandardTransportExtraKexs
+	drvOpen bool     // open through Driver.Open / GetPrompt / Driver.Close instead of the bare transport
+	shuffle uint64   // option order
+	cfgEvil bool     // real: an ssh config file that tries to override port, user, strict checking and known hosts
 	user    string
 	pw      string
 	accKey  bool // the client's key is authorized on the server
@@ -818,8 +992,26 @@ func (k *stdCase) keyPath(e *c14env) (string, bool) {
 		return e.badKey, false
 	case 4:
 		return e.noKey, false
+	case 5:
+		// openBase / Open parse the key WITHOUT the configured passphrase: a protected key never loads
+		return e.encKey, false
 	}
 	return "", true
+}
+
+func (k *stdCase) keyPass() string {
+	if k.keyKind == 5 {
+		return "phrase"
+	}
+	return ""
+}
+
+// serverIP is where the in-process server listens for this case's host form.
+func (k *stdCase) serverIP() string {
+	if k.host == "::1" {
+		return "::1"
+	}
+	return "127.0.0.1"
 }
 
 func genStd(seed uint64, cell int) *stdCase {
@@ -834,6 +1026,22 @@ func genStd(seed uint64, cell int) *stdCase {
 	k.accKey, k.accPw, k.accKbd = r.Chance(2, 3), r.Chance(2, 3), r.Chance(1, 2)
 	k.nq = pickInt(r, 1, 1, 2)
 	k.netconf = r.Chance(1, 6)
+	// further dimensions draw from their own stream so that the older ones keep their values per seed
+	r2 := vlib.NewRng(seed ^ 0xd1f)
+	k.host = r2.Pick([]string{"127.0.0.1", "127.0.0.1", "localhost", "::1"})
+	k.khMode = pickInt(r2, 0, 0, 0, 0, 2, 2, 1)
+	if r2.Chance(1, 4) {
+		k.ciphers = pickList(r2, [][]string{{"aes128-ctr"}, {"aes256-gcm@openssh.com", "aes128-ctr"}, {"chacha20-poly1305@openssh.com"}})
+	}
+	if r2.Chance(1, 4) {
+		k.kexs = pickList(r2, [][]string{{"curve25519-sha256"}, {"diffie-hellman-group14-sha256", "curve25519-sha256"}, {"ecdh-sha2-nistp256"}})
+	}
+	k.drvOpen = r2.Bool()
+	k.shuffle = r2.U64()
+	if r2.Chance(1, 10) {
+		k.keyKind = 5
+	}
+	k.cfgEvil = r2.Chance(1, 3)
 	if cell >= 0 {
 		// the design's base matrix {strict,not} x {has key, another key, empty, absent} x {password, key, both},
 		// server accepting the configured credentials
@@ -845,6 +1053,13 @@ func genStd(seed uint64, cell int) *stdCase {
 		k.accKey, k.accPw, k.accKbd = true, true, true
 		k.nq = 1
 		k.netconf = false
+		k.khMode = 0
+		if k.keyKind == 5 {
+			k.keyKind = 1
+		}
+	}
+	if k.kh == khAbsent && k.khMode == 0 {
+		k.khMode = pickInt(r2, 0, 0, 2) // "not given": no option at all, or the system variant finding nothing
 	}
 	return k
 }
@@ -872,6 +1087,7 @@ func (k *stdCase) accept(e *c14env) func(sim.SSHAuthEvent) bool {
 }
 
 type srvObs struct {
+	port            int
 	tcp, handshakes int
 	events          []sim.SSHAuthEvent
 	estUser, estM   string
@@ -881,6 +1097,7 @@ type srvObs struct {
 
 func observe(s *sim.SSHServer) (o srvObs) {
 	s.Snapshot(func() {
+		o.port = s.Port
 		o.tcp, o.handshakes = s.TCPConns, s.Handshakes
 		o.events = append(o.events, s.Events...)
 		o.estUser, o.estM = s.EstUser, s.EstMethod
@@ -932,22 +1149,36 @@ type stdRun struct {
 	line    string // replayable case line
 	what    string // "" or "step i/n of history …"
 	sig     string // signature infix: "" or "history-"
-	lean    string // the 14 protocol fields of this connection
+	lean    string // the 14 protocol fields of this connection (set once the known-hosts option is resolved)
 	khNow   khKind // what the known-hosts path holds when the connection is opened
 	openErr error
 	newErr  error
 	o       srvObs
 	keyPath string
+	// how the known-hosts file was named, for the model's resolveFileOpt
+	resolve  string // "c14 resolve …" request
+	leanWith func(khPath string) string
+	// what the public accessors said right after NewDriver
+	gotHost  string
+	gotPort  int
+	inChan   *transport.InChannelAuthData
+	inChanRq string // "c14 inchan …" request
+	// driver-level use of the session
+	prompt    string
+	promptErr error
+	alive     bool // Transport.IsAlive() right after Open returned
 }
 
-// stdOpen builds a fresh driver for k against srv with the known-hosts path khPath ("" = none) and
-// opens / closes its transport once. prep, when set, runs between NewDriver and Open.
+// stdOpen builds a fresh driver for k against srv and opens / closes it once. The known-hosts file
+// is named according to k.khMode: khPath (an existing file, "" = no option), a path that does not
+// exist, or the system variant (khPath is then ~/.ssh/known_hosts, prepared by the caller). prep,
+// when set, runs between NewDriver and Open.
 func stdOpen(e *c14env, k *stdCase, srv *sim.SSHServer, khPath string, khNow khKind, prep func()) *stdRun {
 	r := &stdRun{k: k, khNow: khNow}
 	keyPath, keyLoads := k.keyPath(e)
 	r.keyPath = keyPath
 	opts := []util.Option{options.WithTransportType(transport.StandardTransport), options.WithPort(srv.Port),
-		options.WithTimeoutSocket(10 * time.Second)}
+		options.WithTimeoutSocket(10 * time.Second), options.WithTimeoutOps(10 * time.Second), options.WithReadDelay(200 * time.Microsecond)}
 	if k.user != "" {
 		opts = append(opts, options.WithAuthUsername(k.user))
 	}
@@ -959,42 +1190,88 @@ func stdOpen(e *c14env, k *stdCase, srv *sim.SSHServer, khPath string, khNow khK
 	if !k.strict {
 		opts = append(opts, options.WithAuthNoStrictKey())
 	}
-	if khPath != "" {
+	homeKH := filepath.Join(e.home, ".ssh", "known_hosts")
+	switch {
+	case k.khMode == 2:
+		opts = append(opts, options.WithSSHKnownHostsFileSystem())
+		r.resolve = fmt.Sprintf("c14 resolve system - 0 %s %s %s %s", b01(khPath != ""), b01(e.etcKH), hexs(homeKH), hexs("/etc/ssh/ssh_known_hosts"))
+	case k.khMode == 1:
+		missing := filepath.Join(e.dir, "no-such-known-hosts")
+		opts = append(opts, options.WithSSHKnownHostsFile(missing))
+		r.resolve = fmt.Sprintf("c14 resolve path %s 0 0 0 - -", hexs(missing))
+	case khPath != "":
 		opts = append(opts, options.WithSSHKnownHostsFile(khPath))
+		r.resolve = fmt.Sprintf("c14 resolve path %s 1 0 0 - -", hexs(khPath))
+	default:
+		r.resolve = "c14 resolve none - 0 0 0 - -"
 	}
 	if keyPath != "" {
-		opts = append(opts, options.WithAuthPrivateKey(keyPath, ""))
+		opts = append(opts, options.WithAuthPrivateKey(keyPath, k.keyPass()))
+	}
+	if len(k.ciphers) > 0 {
+		opts = append(opts, options.WithStandardTransportExtraCiphers(k.ciphers))
+	}
+	if len(k.kexs) > 0 {
+		opts = append(opts, options.WithStandardTransportExtraKexs(k.kexs))
+	}
+	// option order must not matter
+	sr := vlib.NewRng(k.shuffle)
+	for i := len(opts) - 1; i > 0; i-- {
+		j := sr.Intn(i + 1)
+		opts[i], opts[j] = opts[j], opts[i]
 	}
 	var tr *transport.Transport
+	var gd *generic.Driver
 	if k.netconf {
-		d, err := netconf.NewDriver("127.0.0.1", opts...)
+		d, err := netconf.NewDriver(k.host, opts...)
 		if err != nil {
 			r.newErr = err
 		} else {
 			tr = d.Transport
 		}
 	} else {
-		d, err := generic.NewDriver("127.0.0.1", opts...)
+		d, err := generic.NewDriver(k.host, opts...)
 		if err != nil {
 			r.newErr = err
 		} else {
 			tr = d.Transport
+			gd = d
 		}
+	}
+	if tr != nil {
+		r.gotHost, r.gotPort = tr.GetHost(), tr.GetPort()
+		r.inChan = tr.InChannelAuthData()
+		r.inChanRq = fmt.Sprintf("c14 inchan std %s %s %s", hexs(k.user), hexs(pw), hexs(k.keyPass()))
 	}
 	if prep != nil {
 		prep()
 	}
-	if tr != nil {
-		r.openErr = tr.Open()
-		if r.openErr == nil {
-			// let the session requests arrive before looking
-			deadline := time.Now().Add(5 * time.Second)
-			for time.Now().Before(deadline) {
-				if o := observe(srv); len(o.reqs) >= 2 || (k.netconf && len(o.reqs) >= 1) {
-					break
-				}
-				time.Sleep(time.Millisecond)
+	waitReqs := func() {
+		// let the session requests arrive before looking
+		deadline := time.Now().Add(5 * time.Second)
+		for time.Now().Before(deadline) {
+			if o := observe(srv); len(o.reqs) >= 2 || (k.netconf && len(o.reqs) >= 1) {
+				break
 			}
+			time.Sleep(time.Millisecond)
+		}
+	}
+	switch {
+	case tr == nil:
+	case gd != nil && k.drvOpen:
+		// the whole driver: channel read loop on Standard.Read, a prompt round trip on Standard.Write
+		r.openErr = gd.Open()
+		r.alive = tr.IsAlive()
+		if r.openErr == nil {
+			waitReqs()
+			r.prompt, r.promptErr = gd.GetPrompt()
+			gd.Close()
+		}
+	default:
+		r.openErr = tr.Open()
+		r.alive = tr.IsAlive()
+		if r.openErr == nil {
+			waitReqs()
 		}
 		tr.Close(true)
 	}
@@ -1005,23 +1282,122 @@ func stdOpen(e *c14env, k *stdCase, srv *sim.SSHServer, khPath string, khNow khK
 	case khMissing:
 		khLoads = "missing"
 	}
-	r.lean = fmt.Sprintf("%s %d %s %s %d %s %s %s %s %s %s %s %s %s",
-		hexs("127.0.0.1"), srv.Port, hexs(k.user), hexs(pw), int64(10*time.Second), b01(k.strict), hexs(keyPath), hexs(khPath),
-		khLoads, b01(keyLoads), khNow.verdict(), b01(k.accKey), b01(k.accPw), b01(k.accKbd))
+	port := srv.Port
+	r.leanWith = func(kh string) string {
+		return fmt.Sprintf("%s %d %s %s %d %s %s %s %s %s %s %s %s %s",
+			hexs(k.host), port, hexs(k.user), hexs(pw), int64(10*time.Second), b01(k.strict), hexs(keyPath), hexs(kh),
+			khLoads, b01(keyLoads), khNow.verdict(), b01(k.accKey), b01(k.accPw), b01(k.accKbd))
+	}
 	return r
+}
+
+// askStd runs the model for a batch of connections: first the known-hosts option (resolveFileOpt),
+// then — where a driver exists at all — the connection itself and the in-channel data.
+// It returns per run: the std answer ("" when the model says NewDriver fails) and the expected
+// NewDriver error class.
+func askStd(c *ctx, runs []*stdRun) (std []string, newErrWant []string, inchan []string) {
+	rq := make([]string, len(runs))
+	for i, r := range runs {
+		rq[i] = r.resolve
+	}
+	rs := c.ask(rq)
+	std = make([]string, len(runs))
+	newErrWant = make([]string, len(runs))
+	var lines []string
+	var idx []int
+	for i, r := range runs {
+		f := strings.Fields(rs[i])
+		switch {
+		case len(f) == 2 && f[0] == "ok":
+			b, _ := vlib.UnHex(f[1])
+			r.lean = r.leanWith(string(b))
+			lines = append(lines, "c14 std "+r.lean)
+			idx = append(idx, i)
+		case len(f) == 2 && f[0] == "err":
+			newErrWant[i] = f[1]
+			r.lean = r.resolve
+		default:
+			std[i] = "bad-op"
+			r.lean = r.resolve
+		}
+	}
+	for n, a := range c.ask(lines) {
+		std[idx[n]] = a
+	}
+	inchan = make([]string, len(runs))
+	lines, idx = nil, nil
+	for i, r := range runs {
+		if r.inChanRq != "" {
+			lines = append(lines, r.inChanRq)
+			idx = append(idx, i)
+		}
+	}
+	for n, a := range c.ask(lines) {
+		inchan[idx[n]] = a
+	}
+	return std, newErrWant, inchan
+}
+
+func showInChan(d *transport.InChannelAuthData) string {
+	ty := "unsupported"
+	if d.Type == transport.InChannelAuthSSH {
+		ty = "ssh"
+	} else if d.Type != transport.InChannelAuthUnsupported {
+		ty = string(d.Type)
+	}
+	return fmt.Sprintf("%s %s %s %s", ty, hexs(d.User), hexs(d.Password), hexs(d.PrivateKeyPassPhrase))
 }
 
 // evalStd judges one connection: the property's oracle on the implementation (the content of the
 // known-hosts path AT THE TIME of the connection decides) and the correspondence with the model.
-func evalStd(c *ctx, e *c14env, r *stdRun, model string) {
+func evalStd(c *ctx, e *c14env, r *stdRun, model, newErrWant, inchan string) {
 	res := c.res
 	k, o, line := r.k, r.o, r.line
 	if model == "bad-op" {
 		res.Fail("machinery", line, "driver rejected: "+r.lean, "c14-bad-op")
 		return
 	}
+	if newErrWant != "" {
+		// the known-hosts option cannot be satisfied: no driver, no connection
+		got := "nil"
+		switch {
+		case errors.Is(r.newErr, util.ErrFileNotFoundError):
+			got = "filenotfound"
+		case errors.Is(r.newErr, util.ErrBadOption):
+			got = "badoption"
+		case r.newErr != nil:
+			got = "other"
+		}
+		if c14Debug {
+			fmt.Fprintf(os.Stderr, "%s %sstrict=%v kh=%s khMode=%d -> NewDriver %v | model %s\n", line, r.what, k.strict, khNames[r.khNow], k.khMode, r.newErr, newErrWant)
+		}
+		if got != newErrWant {
+			res.Fail("correspondence", line, fmt.Sprintf("%sknown-hosts option (%s): model says NewDriver fails with %s, impl: %v", r.what, r.resolve, newErrWant, r.newErr), "c14-std-"+r.sig+"newdriver-differs")
+		}
+		if o.tcp > 0 || r.newErr == nil && k.strict && r.openErr == nil {
+			res.Fail("oracle", line, fmt.Sprintf("%sthe configured known-hosts file cannot be resolved, yet a connection was made (tcp=%d)", r.what, o.tcp), "c14-std-"+r.sig+"connected-without-known-hosts-file")
+		}
+		return
+	}
 	if r.newErr != nil {
 		res.Fail("correspondence", line, fmt.Sprintf("%sNewDriver failed: %v", r.what, r.newErr), "c14-std-"+r.sig+"newdriver-error")
+		return
+	}
+	// the accessors name the configured target; the channel is handed no credential
+	if r.gotHost != k.host || r.gotPort != o.port {
+		res.Fail("oracle", line, fmt.Sprintf("%stransport targets %q port %d, configured %q port %d", r.what, r.gotHost, r.gotPort, k.host, o.port), "c14-std-"+r.sig+"wrong-target")
+	}
+	if r.inChan != nil && showInChan(r.inChan) != inchan {
+		kind := "correspondence"
+		if r.inChan.Password != "" {
+			kind = "oracle" // the password would be typed into the session
+		}
+		res.Fail(kind, line, fmt.Sprintf("%sInChannelAuthData = %s, model %s", r.what, showInChan(r.inChan), inchan), "c14-std-"+r.sig+"in-channel-data")
+	}
+	if k.host == "::1" && r.openErr != nil && o.tcp == 0 && strings.Contains(r.openErr.Error(), "too many colons") {
+		// library defect outside this property's statement (reported): the standard transport builds the dial
+		// address as host:port, so an IPv6 literal cannot be dialled at all. Nothing connected: nothing to judge.
+		res.Count("std-ipv6-literal-not-dialable")
 		return
 	}
 	// observed outcome, from both ends
@@ -1079,6 +1455,18 @@ func evalStd(c *ctx, e *c14env, r *stdRun, model string) {
 			res.Fail("oracle", line, fmt.Sprintf("%sserver was offered %s %q for user %q; configured user=%q key=%q password-set=%v", r.what, ev.Method, ev.Cred, ev.User, k.user, r.keyPath, k.usePw), "c14-std-"+r.sig+"unconfigured-credential")
 		}
 	}
+	// IsAlive must not claim a connection that was refused
+	if r.alive && o.handshakes == 0 {
+		res.Fail("oracle", line, fmt.Sprintf("%sIsAlive() is true although no connection was established (Open: %v)", r.what, r.openErr), "c14-std-"+r.sig+"alive-without-connection")
+	} else if r.alive != (r.openErr == nil) && !(k.drvOpen && !k.netconf) {
+		res.Fail("correspondence", line, fmt.Sprintf("%sIsAlive() = %v after Open returned %v", r.what, r.alive, r.openErr), "c14-std-"+r.sig+"alive-differs")
+	}
+	if k.usePw && bytes.Contains(o.stdin, []byte(k.pw)) && !strings.Contains("\n", k.pw) {
+		res.Fail("oracle", line, fmt.Sprintf("%sthe password was written into the session (server read %q on the channel)", r.what, o.stdin), "c14-std-"+r.sig+"password-in-session")
+	}
+	if r.openErr == nil && k.drvOpen && !k.netconf && (r.promptErr != nil || r.prompt != "router#") {
+		res.Fail("correspondence", line, fmt.Sprintf("%sestablished, but the session is not usable through the driver: GetPrompt = %q, %v", r.what, r.prompt, r.promptErr), "c14-std-"+r.sig+"session-unusable")
+	}
 	// --- correspondence with the model
 	f := strings.Fields(model)
 	var wantOut, wantAtt string
@@ -1118,28 +1506,49 @@ func evalStd(c *ctx, e *c14env, r *stdRun, model string) {
 func c14Std(c *ctx, e *c14env, cells []int, seeds []uint64) {
 	res := c.res
 	runs := make([]*stdRun, len(seeds))
-	lines := make([]string, len(seeds))
+	homeKH := filepath.Join(e.home, ".ssh", "known_hosts")
 	for i, seed := range seeds {
 		k := genStd(seed, cells[i])
-		srv := sim.NewSSHServer(rngReader{vlib.NewRng(seed ^ 0x5eed)}, k.accept(e))
+		srv := sim.NewSSHServerOn(k.serverIP(), rngReader{vlib.NewRng(seed ^ 0x5eed)}, k.accept(e))
 		srv.Questions = k.nq
-		khPath := e.writeKH(k.kh, srv.Port, srv.HostKey.PublicKey())
+		var khPath string
+		os.Remove(homeKH)
+		if k.khMode == 2 {
+			// the system variant: the content goes to ~/.ssh/known_hosts (no file there for "absent")
+			if k.kh != khAbsent {
+				os.WriteFile(homeKH, e.khBytes(k.kh, k.host, srv.Port, srv.HostKey.PublicKey()), 0o600)
+				khPath = homeKH
+			}
+		} else {
+			khPath = e.writeKH(k.kh, k.host, srv.Port, srv.HostKey.PublicKey())
+		}
 		r := stdOpen(e, k, srv, khPath, k.kh, nil)
 		r.line = fmt.Sprintf("std %d %d", cells[i], seed)
 		srv.Close()
 		r.o = observe(srv)
 		runs[i] = r
-		lines[i] = "c14 std " + r.lean
 	}
-	model := c.ask(lines)
+	os.Remove(homeKH)
+	model, newErrWant, inchan := askStd(c, runs)
 	for i, r := range runs {
 		res.Count("std")
 		res.Count(fmt.Sprintf("std strict=%v kh=%s", r.k.strict, khNames[r.k.kh]))
+		res.Count("std host=" + r.k.host)
+		res.Count(fmt.Sprintf("std known-hosts-option=%s", []string{"path", "missing-path", "system"}[r.k.khMode]))
+		if r.k.drvOpen && !r.k.netconf {
+			res.Count("std via Driver.Open")
+		}
+		if len(r.k.ciphers)+len(r.k.kexs) > 0 {
+			res.Count("std extra ciphers/kexs")
+		}
+		if r.k.keyKind == 5 {
+			res.Count("std passphrase-protected key")
+		}
 		if model[i] != "bad-op" {
 			res.InDomain++
 			res.Case(r.line, true)
 		}
-		evalStd(c, e, r, model[i])
+		evalStd(c, e, r, model[i], newErrWant[i], inchan[i])
 	}
 }
 
@@ -1179,6 +1588,10 @@ func c14Hist(c *ctx, e *c14env, seeds []uint64) {
 			k.keyKind = 1
 		}
 		k.accKey, k.accPw, k.accKbd, k.nq, k.netconf = true, true, true, 1, false
+		k.khMode = 0
+		if k.host == "::1" {
+			k.host = "127.0.0.1"
+		}
 		var sc []khKind
 		if rg.Chance(1, 5) {
 			pool := []khKind{khMatch, khMatchHashed, khMismatch, khEmpty, khRevoked, khMalformed, khOtherPort, khMissing}
@@ -1192,14 +1605,14 @@ func c14Hist(c *ctx, e *c14env, seeds []uint64) {
 		for i, kk := range sc {
 			names[i] = khNames[kk]
 		}
-		srv := sim.NewSSHServer(rngReader{vlib.NewRng(seed ^ 0x5eed)}, k.accept(e))
+		srv := sim.NewSSHServerOn(k.serverIP(), rngReader{vlib.NewRng(seed ^ 0x5eed)}, k.accept(e))
 		path := e.tmp("kh-history")
 		h := &hist{line: fmt.Sprintf("hist %d", seed)}
 		var fields []string
 		for i, now := range sc {
 			srv.Reset()
 			// (re)write the path: in place, or as a new file renamed over it
-			content := e.khBytes(now, srv.Port, srv.HostKey.PublicKey())
+			content := e.khBytes(now, k.host, srv.Port, srv.HostKey.PublicKey())
 			if rg.Bool() {
 				os.WriteFile(path, content, 0o600)
 			} else {
@@ -1213,6 +1626,8 @@ func c14Hist(c *ctx, e *c14env, seeds []uint64) {
 			}
 			r := stdOpen(e, k, srv, path, now, prep)
 			r.line = h.line
+			r.lean = r.leanWith(path) // an explicit existing path: resolveFileOpt (.path p true) = p
+			r.inChan = nil
 			r.sig = "history-"
 			r.what = fmt.Sprintf("connection %d of %d, one process, fresh driver each, same known-hosts path holding %s in turn: ", i+1, len(sc), strings.Join(names, " -> "))
 			r.o = observe(srv)
@@ -1254,7 +1669,7 @@ func c14Hist(c *ctx, e *c14env, seeds []uint64) {
 				}
 				ans = ans[:idx]
 			}
-			evalStd(c, e, r, ans)
+			evalStd(c, e, r, ans, "", "")
 		}
 	}
 }
@@ -1293,10 +1708,36 @@ func c14Real(c *ctx, e *c14env, cells []int, seeds []uint64) {
 			// extra arguments that try to switch checking off: first value wins in OpenSSH, so they must not
 			k.extra = []string{"-o", "StrictHostKeyChecking=no", "-o", "UserKnownHostsFile=/dev/null"}
 		}
-		srv := sim.NewSSHServer(rngReader{vlib.NewRng(seed ^ 0x5eed)}, k.accept(e))
-		khPath := e.writeKH(k.kh, srv.Port, srv.HostKey.PublicKey())
+		if k.keyKind == 5 {
+			k.keyKind = 1 // a protected key is refused by System.Open before anything is spawned (sys family)
+		}
+		srv := sim.NewSSHServerOn(k.serverIP(), rngReader{vlib.NewRng(seed ^ 0x5eed)}, k.accept(e))
+		homeKH := filepath.Join(e.home, ".ssh", "known_hosts")
+		os.Remove(homeKH)
+		var khPath string
+		viaSystem := k.khMode == 2 && k.kh != khAbsent
+		if viaSystem {
+			os.WriteFile(homeKH, e.khBytes(k.kh, k.host, srv.Port, srv.HostKey.PublicKey()), 0o600)
+		} else {
+			khPath = e.writeKH(k.kh, k.host, srv.Port, srv.HostKey.PublicKey())
+		}
 		keyPath, _ := k.keyPath(e)
-		opts := []util.Option{options.WithPort(srv.Port), options.WithTimeoutSocket(10 * time.Second)}
+		opts := []util.Option{options.WithPort(srv.Port), options.WithTimeoutSocket(10 * time.Second),
+			options.WithTimeoutOps(15 * time.Second), options.WithReadDelay(200 * time.Microsecond)}
+		if viaSystem {
+			opts = append(opts, options.WithSSHKnownHostsFileSystem())
+		}
+		if k.cfgEvil {
+			// an ssh config file that tries to redirect the connection and to switch checking off: the
+			// command line scrapligo builds takes precedence over it (first obtained value wins)
+			cfg := "Host *\n    Port 1\n    StrictHostKeyChecking no\n    UserKnownHostsFile /dev/null\n"
+			if k.user != "" {
+				cfg += "    User evil\n"
+			}
+			cp := e.tmp("evil-config")
+			os.WriteFile(cp, []byte(cfg), 0o600)
+			opts = append(opts, options.WithSSHConfigFile(cp))
+		}
 		if k.user != "" {
 			opts = append(opts, options.WithAuthUsername(k.user))
 		}
@@ -1315,17 +1756,40 @@ func c14Real(c *ctx, e *c14env, cells []int, seeds []uint64) {
 		if len(k.extra) > 0 {
 			opts = append(opts, options.WithSystemTransportOpenArgs(k.extra))
 		}
-		d, err := generic.NewDriver("127.0.0.1", opts...)
+		viaDriver := r.Bool()
+		bypass := viaDriver && keyPath != "" && r.Chance(1, 2)
+		if bypass {
+			// key authentication needs no in-channel dialogue: with WithAuthBypass the channel types nothing at all
+			opts = append(opts, options.WithAuthBypass())
+		}
+		d, err := generic.NewDriver(k.host, opts...)
 		if err != nil {
 			res.Fail("correspondence", line, fmt.Sprintf("NewDriver failed: %v", err), "c14-real-newdriver-error")
 			srv.Close()
 			continue
 		}
 		tr := d.Transport
+		gotHost, gotPort := tr.GetHost(), tr.GetPort()
+		inChan := showInChan(tr.InChannelAuthData())
 		var out []byte
 		sawPrompt, typed := false, 0
-		openErr := tr.Open()
-		if openErr == nil {
+		var openErr error
+		if bypass {
+			res.Count("real WithAuthBypass")
+		}
+		if viaDriver {
+			// the whole driver: Channel.Open does the in-channel authentication (types the password at ssh's prompt)
+			derr := d.Open()
+			if derr == nil {
+				p, perr := d.GetPrompt()
+				sawPrompt = perr == nil && p == "router#"
+				out = []byte(fmt.Sprintf("<Driver.Open ok; GetPrompt %q %v>", p, perr))
+				d.Close()
+			} else {
+				out = []byte("<Driver.Open: " + derr.Error() + ">")
+			}
+			reap()
+		} else if openErr = tr.Open(); openErr == nil {
 			done := make(chan struct{})
 			go func() {
 				defer close(done)
@@ -1373,8 +1837,32 @@ func c14Real(c *ctx, e *c14env, cells []int, seeds []uint64) {
 		// files; the fresh key cannot be in them
 		hostKeyOK := k.kh != khAbsent && verdict == "match"
 		established := o.handshakes > 0
-		detail := fmt.Sprintf("strict=%v known-hosts=%s extra=%q user=%q: established=%v prompt=%v offered=%s user_seen=%q output=%q",
-			k.strict, khNames[k.kh], k.extra, k.user, established, sawPrompt, e.showEvents(o.events), o.estUser, string(out))
+		os.Remove(homeKH)
+		res.Count("real host=" + k.host)
+		if viaDriver {
+			res.Count("real via Driver.Open")
+		}
+		if k.cfgEvil {
+			res.Count("real hostile config file")
+		}
+		if viaSystem {
+			res.Count("real known-hosts-option=system")
+		}
+		detail := fmt.Sprintf("host=%s strict=%v known-hosts=%s system-option=%v hostile-config=%v extra=%q user=%q: established=%v prompt=%v offered=%s user_seen=%q output=%q",
+			k.host, k.strict, khNames[k.kh], viaSystem, k.cfgEvil, k.extra, k.user, established, sawPrompt, e.showEvents(o.events), o.estUser, string(out))
+		if gotHost != k.host || gotPort != srv.Port {
+			res.Fail("oracle", line, fmt.Sprintf("transport targets %q port %d, configured %q port %d", gotHost, gotPort, k.host, srv.Port), "c14-real-wrong-target")
+		}
+		pwCfg := ""
+		if k.usePw {
+			pwCfg = k.pw
+		}
+		if m := c.ask([]string{fmt.Sprintf("c14 inchan sys %s %s -", hexs(k.user), hexs(pwCfg))}); m[0] != inChan {
+			res.Fail("correspondence", line, fmt.Sprintf("InChannelAuthData = %s, model %s", inChan, m[0]), "c14-real-in-channel-data")
+		}
+		if k.usePw && len(k.pw) > 1 && bytes.Contains(o.stdin, []byte(k.pw)) {
+			res.Fail("oracle", line, fmt.Sprintf("the password was written into the session (server read %q on the channel): %s", o.stdin, detail), "c14-real-password-in-session")
+		}
 		res.Sample(map[string]any{"case": line, "detail": detail})
 		if c14Debug {
 			fmt.Fprintf(os.Stderr, "%s %s\n", line, detail)
@@ -1425,7 +1913,7 @@ func c14Real(c *ctx, e *c14env, cells []int, seeds []uint64) {
 
 func runC14(c *ctx) {
 	res := c.res
-	res.Rule = "sys: generated configurations (hosts incl. option-like/odd bytes, ports incl. out of range, users, passwords with/without marker bytes, socket timeouts incl. sub-second/negative, strict on/off, known-hosts/config/key files incl. odd paths and unusable keys, passphrase, 0-3 extra-arg options, argv override, NETCONF, shuffled option order) through generic/netconf NewDriver + Transport.Open with the stand-in ssh; std/real: {strict,not} x 9 known-hosts file kinds x {password,key,both,none,bad key} x server acceptance x users against an in-process SSH server with a fresh host key; hist: 2-3 successive connections in one process (fresh driver each) through the SAME known-hosts path whose content is rewritten in between (match->mismatch, match->empty, match->revoked, mismatch->match, missing->match, ...), judged per connection on the content at that time. non-trivial = sys case with a user/known-hosts/key/extra args, every std/real case; distinct by case seed"
+	res.Rule = "sys: generated configurations (hosts incl. option-like/odd bytes, ports incl. out of range, users, passwords with/without marker bytes, socket timeouts incl. sub-second/negative, strict on/off, known-hosts/config/key files incl. odd paths and unusable keys, passphrase, 0-3 extra-arg options, argv override, NETCONF, shuffled option order) through generic/netconf NewDriver + Transport.Open with the stand-in ssh; std/real: {strict,not} x 9 known-hosts file kinds x {password,key,both,none,bad key} x server acceptance x users x host forms (127.0.0.1, localhost, ::1) x how the known-hosts file is named (path, path that does not exist, the ...FileSystem() variant with ~/.ssh/known_hosts under a private $HOME) x extra ciphers/kexs x option order x bare transport or Driver.Open+GetPrompt (real: also WithAuthBypass with key auth, and an ssh config file that tries to override port/user/strict checking) against an in-process SSH server with a fresh host key; known-hosts kinds also cover wildcard patterns, a second key type for the host, only another key type; keys also passphrase-protected; sys additionally: file options by path / missing path / system variant, OpenBin that does not exist, GetHost/GetPort/InChannelAuthData/IsAlive; hist: 2-3 successive connections in one process (fresh driver each) through the SAME known-hosts path whose content is rewritten in between (match->mismatch, match->empty, match->revoked, mismatch->match, missing->match, ...), judged per connection on the content at that time. non-trivial = sys case with a user/known-hosts/key/extra args, every std/real case; distinct by case seed"
 	for _, v := range []string{"SSH_AUTH_SOCK", "SSH_ASKPASS", "DISPLAY", "VERIF_C14_ARGV"} {
 		os.Unsetenv(v)
 	}
@@ -1500,7 +1988,7 @@ func runC14(c *ctx) {
 			cells = append(cells, cell)
 		}
 	}
-	for i := c.n(6, 60); i > 0; i-- {
+	for i := c.n(20, 120); i > 0; i-- {
 		cells = append(cells, -1)
 	}
 	c14Real(c, e, cells, seeds(len(cells)))
